@@ -33,6 +33,7 @@ type vconn struct {
 	writes    int
 	onRead    func(c *vconn) // called at the moment the server asks the transport for bytes
 	readsAtEOF int
+	yield      bool // every Read is a scheduling point (concurrency harnesses)
 }
 
 func newVconn(in []byte) *vconn {
@@ -47,6 +48,10 @@ func (c *vconn) limit() int {
 }
 
 func (c *vconn) Read(p []byte) (int, error) {
+	if c.yield && (c.pos == 0 || c.pos >= c.limit() || c.in[c.pos-1] == '\n' && (c.in[c.pos] == '*')) {
+		// scheduling point where a new request starts (reads inside one request touch no shared state)
+		vsymYield()
+	}
 	if c.closed {
 		return 0, errVconnClosed
 	}
